@@ -82,6 +82,10 @@ def base_cases(tier, seed):
         return {"family": "G", "entry": "api", "eq": eq, "options": o}
 
     n = 6 if tier == "quick" else 48
+    if tier == "quick":
+        # six cases: every topology once, the sixth another single null; spline interpolation for the
+        # first of each class so that the reversal relations have their members
+        return corpus.collect(build(), n, seed + 1600, keyfn=lambda d: d["eq"]["topology"], oversample=12)
     return corpus.collect(build(), n, seed + 1600, keyfn=lambda d: "%s/%s" % (d["eq"]["topology"], d["options"]["orthogonal"]))
 
 
@@ -209,7 +213,15 @@ def run(run):
         descs.append(mirror_desc(d))
         plan.append(("mirror", i0, i0 + 1))
     # reversal relations on orthogonal spline cases
-    rev = [d for d in base if d["options"].get("psi_interpolation_method", "spline") == "spline"][: (3 if run.tier == "quick" else 16)]
+    # one per topology class first (single null, connected, disconnected double null): the
+    # radial-grid code differs between them
+    spl = [d for d in base if d["options"].get("psi_interpolation_method", "spline") == "spline"]
+    cls = lambda d: {"lsn": "single", "usn": "single", "cdn": "connected"}.get(d["eq"]["topology"], "disconnected")  # noqa: E731
+    rev = []
+    for want in ("single", "connected", "disconnected"):
+        rev += [d for d in spl if cls(d) == want][:1]
+    rev += [d for d in spl if d not in rev]
+    rev = rev[: (3 if run.tier == "quick" else 16)]
     for d in rev:
         i0 = len(descs)
         descs.append(d)
